@@ -145,7 +145,14 @@ def _usual(h):
 
 def run(ck):
     b = ck.build("kvconc")
-    if ck.replay is not None:
+    sched = []
+    if ck.replay is not None and "schedule" in ck.replay:
+        rp = ck.replay
+        sched = [h for h in ck.drive(b, ["schedreplay", "memory"], input_lines=[{"setup": rp.get("setup") or [], "scripts": rp["scripts"], "kind": rp["kind"],
+                                                                                  "schedule": rp["schedule"]}]) if "events" in h]
+        out = []
+        recs, rounds = sched[:1], []
+    elif ck.replay is not None:
         rp = ck.replay
         out = ck.drive(b, ["replay", rp["backend"]], input_lines=[{"backend": rp["backend"], "scripts": rp["scripts"], "kind": rp.get("kind", "replay")}])
         recs = [h for h in out if "i" in h]
@@ -155,6 +162,12 @@ def run(ck):
         out = ck.drive(b, ["all", str(nh), "4", "3", "60000" if ck.thorough else "5000"], timeout=1500)
         recs = [h for h in out if str(h.get("kind", "")).startswith("random-")]
         rounds = [h for h in out if not str(h.get("kind", "")).startswith("random-")]
+        # systematic schedules on the in-memory backend: the hash function of the store is a scheduling point
+        so = ck.drive(b, ["sched", "120" if ck.thorough else "24", "400" if ck.thorough else "120", "memory"], timeout=1500)
+        sched = [h for h in so if "events" in h]
+        ck.extra["systematic_schedules"] = len(sched)
+        if not sched:
+            raise vf.Infra("kvconc sched recorded no run")
     stats = [h for h in rounds if "stat" in h]
     rounds = [h for h in rounds if "stat" not in h]
     if not recs:
@@ -174,7 +187,7 @@ def run(ck):
     ck.log("%d histories, %d barrier rounds recorded (%d overlapping, %d unusual)" % (len(recs), len(rounds), ck.extra["barrier_rounds_overlapping"], len(odd)))
     seen = set()
     sel = []
-    for h in odd[:30] + recs + sample:
+    for h in odd[:30] + recs + sample + sched:
         if id(h) not in seen:
             seen.add(id(h))
             sel.append(h)
@@ -224,12 +237,17 @@ def run(ck):
                "prefix (append/remove/contains/list over 2 children), lease (acquire/release/renew/read token) or mixed, followed by quiescent "
                "reads of everything; barrier rounds = all goroutines start the same conflicting call at the same instant (append of one child, "
                "acquire of a free lease, put + read back, appends of distinct children, acquire/release/acquire): all unusual rounds and a sample "
-               "go to TLC; non-trivial = a conflict reply or really overlapping calls; distinct = distinct (backend, event sequence)")
+               "go to TLC; systematic schedules (memory backend): the store's hash function is a scheduling point, goroutines park before every call and at "
+               "every further hash call inside a call, one runs at a time, and all schedules of 9 directed cases (an operation that empties a key against "
+               "operations that use it again) and of seeded random 2-3 goroutine scripts on one key are enumerated depth-first (bounded) - every run goes to TLC; "
+               "non-trivial = a conflict reply or really overlapping calls; distinct = distinct (backend, event sequence)")
     ck.assumptions += ["event order from one atomic counter stamped at invocation and return (consistent with real time)",
                        "PrefixList is judged child by child (no atomic snapshot of the whole set is demanded)",
                        "ErrKVSimpleConflict without effect is a legal reply of a Put/Delete that overlaps another write of the key (DESIGN 4.0)",
                        "leases of >= 1000 s never expire inside a history; RemoveKeys/Import are not raced (C18 is about per-key operations)",
-                       "schedules are whatever the Go scheduler produces on this machine: absence of a violation is evidence, not proof"]
+                       "racing histories: schedules are whatever the Go scheduler produces on this machine: absence of a violation is evidence, not proof",
+                       "systematic schedules interleave at call boundaries and at hash-function calls inside a call (the only points the store offers without a hook); "
+                       "an invocation is stamped when its goroutine is released to start the call"]
 
 
 def _control(ck):
@@ -281,7 +299,10 @@ def _brief(h):
 
 
 def _rep(h):
-    return {"backend": h["backend"], "scripts": h["scripts"], "kind": h["kind"], "recorded": _brief(h)}
+    r = {"backend": h["backend"], "scripts": h["scripts"], "kind": h["kind"], "recorded": _brief(h)}
+    if "schedule" in h:
+        r.update(schedule=h["schedule"], setup=h.get("setup") or [])
+    return r
 
 
 def _race(ck):
